@@ -151,6 +151,27 @@ func (a *Alerts) Set(alert *types.Alert) error {
 	a.Lock()
 	defer a.Unlock()
 
+	return a.set(alert)
+}
+
+// SetIfNotStale sets the alert in memory unless a more recently updated
+// version of the same alert is already stored. A stale alert is dropped and
+// nil is returned.
+func (a *Alerts) SetIfNotStale(alert *types.Alert) error {
+	a.Lock()
+	defer a.Unlock()
+
+	if a.destroyed {
+		return ErrDestroyed
+	}
+	if cur, ok := a.alerts[alert.Fingerprint()]; ok && cur.UpdatedAt.After(alert.UpdatedAt) {
+		return nil
+	}
+	return a.set(alert)
+}
+
+// set stores the alert. It must be called with the lock held.
+func (a *Alerts) set(alert *types.Alert) error {
 	if a.destroyed {
 		return ErrDestroyed
 	}
